@@ -471,17 +471,49 @@ def _step(S, op, what):
     raise HarnessError("unknown op %r" % (name,))
 
 
-def run_history(ops, ctx, label_ops=True):
+def _light(S, o, exp, what):
+    """prefix step of an exhaustively enumerated history: the prefix is itself a member of the enumeration and
+    is verified in full there, so here the step is only executed and the model synchronised (the domain
+    exclusions -- near-pi results, runaway rotation vectors -- still apply)."""
+    kind = exp[0]
+    if kind == "none":
+        return
+    if kind == "vec":
+        if float(np.abs(np.asarray(exp[1], dtype=float)[3:]).max()) > WMAX:
+            raise Skip("rotation vector beyond 1e6 rad")
+        S.vec_writes += 1
+    elif kind == "mat":
+        if _near_pi(np.asarray(exp[1], dtype=float)[:3, :3]):
+            raise Skip("matrix-side result within 2e-5 of a half turn (C01-near-pi-log)")
+        S.mat_writes += 1
+    elif kind == "amod":
+        if float(np.abs(o.v[3:]).max()) > TWO_PI:
+            S.vec_writes += 1
+            S.ctx.label("angleMod reduces")
+    TM, TAA = _observe(o.t, what)
+    _adopt(S, o, TM, TAA)
+
+
+def run_history(ops, ctx, label_ops=True, verify_from=0):
+    """verify_from > 0 is used by the bulk enumeration only: steps before it are executed without the
+    invariant check because the prefix is verified as its own (shorter) member of the same enumeration.
+    Replays and the random clause always verify every step."""
     S = _State(ctx)
     # every history starts from the default-constructed identity
     o0, exp = _step(S, {"op": "c_default"}, "tm()")
-    _expect_mat(S, o0, exp[1], exp[2], "tm()")
+    if verify_from > 0:
+        _light(S, o0, exp, "tm()")
+    else:
+        _expect_mat(S, o0, exp[1], exp[2], "tm()")
     S.mat_writes = 0
     for n, op in enumerate(ops):
         what = "step %d %s" % (n, op["op"])
         if label_ops:
             ctx.label("op:" + op["op"])
         o, exp = _step(S, op, what)
+        if n < verify_from:
+            _light(S, o, exp, what)
+            continue
         kind = exp[0]
         if kind == "vec":
             _expect_vec(S, o, exp[1], exp[2], what)
@@ -661,11 +693,11 @@ def enum_case_at(i, tier):
     return enum_case(enum_indices(i, tier))
 
 
-def c_enum(case, ctx):
+def c_enum(case, ctx, last_only=False):
     idx = [int(k) for k in case["idx"]]
     if any(not 0 <= k < NA for k in idx) or [_opname(k) for k in idx] != list(case["names"]):
         raise HarnessError("replay case does not match the current operation alphabet: %r" % (case,))
-    run_history([ALPHABET[k] for k in idx], ctx, label_ops=False)
+    run_history([ALPHABET[k] for k in idx], ctx, label_ops=False, verify_from=len(idx) - 1 if last_only else 0)
     ctx.label("len=%d" % len(idx))
 
 
@@ -722,12 +754,16 @@ def enum_run_range(lo, hi, tier, stats):
         case = enum_case(idx)
         ctx = _LightCtx()
         try:
-            c_enum(case, ctx)
+            c_enum(case, ctx, last_only=True)
         except Skip as s:
             stats.skipped[s.reason] += 1
             continue
         except Violation as v:
-            sidx, msg = _shrink(idx, str(v))
+            # confirm with the plain predicate (every step verified), then shrink with it
+            msg = _fails(idx)
+            if msg is None:
+                raise HarnessError("enumeration failure not confirmed by the full check: %r: %s" % (case, v))
+            sidx, msg = _shrink(idx, msg)
             stats.failure = (ser.to_jsonable(enum_case(sidx)), msg)
             break
         stats.evals += 1
@@ -853,5 +889,5 @@ CLAUSES = [
     Clause("coherent_all_short_histories", c_enum, kind="enum", size=enum_size, case_at=enum_case_at,
            run_range=enum_run_range,
            doc="exhaustive over the palette alphabet; the case is the op-index list (+ op names as a guard)"),
-    Clause("coherent_random_histories", c_random, _histories(), 4000, 96000),
+    Clause("coherent_random_histories", c_random, _histories(), 4000, 64000),
 ]
